@@ -17,12 +17,16 @@ CHECKS = {
          "the interleaving of edits across live objects is the schedule; ctor twins share nested node-attribute values by design and receive no nested edits"),
  "C08": ("observers (every xgi callable whose first parameter is a network, enumerated by introspection, plus view/stat methods) interleaved with mutations; deep ordered snapshot incl. next automatic ID before/after each call, and a differential schedule: the same run with all reads elided must end in the same world",
          "arguments are synthesised from parameter names and the current state; callables that never returned normally are listed in the evidence (callable_coverage)"),
+ "C09": ("replica pairs: a history-reached hypergraph and a replica of the same logical network whose construction operations are delivered in scheduler-permuted order (nodes, edges, members, API route) under node and edge bijections (other integers, non-identity permutation of 0..m-1, gapped, strings), repeated under four worker hash seeds; every measure named by the property is evaluated on both and compared through the bijection (matrices through their index maps)",
+         "the relabelling half is a symmetry argument riding on the replica machinery (DESIGN C09 honest limit): the scheduler contributes permutations and history-reached states, not faults; simpliciality measures only on orderable labels; floats compared with rtol 1e-9"),
  "C10": ("converter round trips (hyperedge list/dict, bipartite edge list, incidence matrix with index maps, bipartite graph with scheduler-chosen vertex/edge insertion order, dataframe, standard dict incl. refusal of colliding casts, HIF dict) and class-to-class constructions as derive transitions on history-reached sources; birth state compared with the model's projection per representation; the result joins the world and keeps being edited",
          "apart from the construction-order schedule of the bipartite graph there is no fault or interleaving here (DESIGN C10 honest limit); representations are only fed networks inside their stated domain (homogeneous labels for bare lists and pandas, closed complexes for simplicial targets)"),
  "C11": ("durable-store simulation: write_F / read_F (hif, hif collection, json, json collection, edge list, bipartite edge list, incidence matrix) over a few shared paths on top of a simulated raw device under Python's real buffering/text layers: short reads and writes always on, ENOSPC/EIO after k bytes, failing open/close; acknowledged-write rule checked against the model's projection per format, read results join the world and keep being edited",
          "the raw device is the only stub (FileIO subclass); labels/values are generated inside each format's stated domain; after a failed write the path is indeterminate until the next acknowledged write"),
  "C16": ("generators run under the RNG seam: real MT19937 with scheduler seeds (via seed= and via a pre-set global state) and an adversarial mode with scripted random.random / numpy.random.random streams that steer skip sampling onto index 0, the last index and one past it and make Bernoulli draws hit p and 0.0 exactly; promise table per generator (node set, edge sizes, no repeats, p=0 / p=1, degrees, downward closure, flag = cliques); index decoders checked exhaustively as bijections for n <= 9, m <= 4",
          "the decoder clause is plain enumeration, not simulation; parameter grids are bounded (n <= 9, m <= 4); only random.random and numpy.random.random are scripted, sample/choice/shuffle stay real"),
+ "C17": ("call - perturb - call experiments for every public callable with a seed parameter (introspected): between two calls with the same arguments and seed the scheduler interleaves 0-6 other RNG consumers (draws from and reseeds of random / numpy.random, the same function with another seed, other xgi generators, random_edge_shuffle, eigsh-based code); results must be exactly equal",
+         "same interpreter process, BLAS pinned to one thread; arguments are re-created for the second call; callables without an argument recipe are listed as uncovered in the evidence"),
  "C18": ("freeze as an operation of the world plus subhypergraph results; every structural call that would change an unfrozen copy must raise XGIError and change nothing; the mutator surface is discovered by probing dir(class) and in_place functions on an unfrozen copy and replaying on the frozen network; is_frozen checked on every actor at every step; copies of frozen networks are unfrozen, equal and editable",
          "argument synthesis for probed methods is by parameter name; methods for which no changing arguments are found are reported in the evidence as uncovered"),
  "C19": ("derived networks as transitions of the simulated world: in-place cleanup / relabelling / largest-component restriction are steps of edit histories (exact refinement + an independent guarantee oracle), the not-in-place variants, subhypergraph, dual, dual-of-dual, <<, complement, cut_to_order, k_skeleton and from_max_simplices create new actors whose birth state must equal the model-side set-theoretic definition and which keep being edited",
